@@ -87,6 +87,29 @@ func (c *Case) ref() (*rTx, []rOut) {
 
 // real builds a fresh gocoin transaction object (empty cache).
 func (c *Case) real() *btc.Tx {
+	tx := c.bare()
+	c.alloc(tx, "append")
+	return tx
+}
+
+// alloc: what a caller does before the first digest request - tx.AllocVerVars(), then the spent outputs of THIS
+// transaction are installed: by append (wallet/signtx.go) or into a slice made for them (chain_accept.go, txpool).
+func (c *Case) alloc(tx *btc.Tx, how string) {
+	tx.AllocVerVars()
+	if how == "assign" {
+		tx.Spent_outputs = make([]*btc.TxOut, len(c.Spent))
+		for i, x := range c.Spent {
+			tx.Spent_outputs[i] = &btc.TxOut{Value: x.Value, Pk_script: unhx(x.Pk)}
+		}
+		return
+	}
+	for _, x := range c.Spent {
+		tx.Spent_outputs = append(tx.Spent_outputs, &btc.TxOut{Value: x.Value, Pk_script: unhx(x.Pk)})
+	}
+}
+
+// bare: the transaction object as the parser leaves it - TxVerVars is nil.
+func (c *Case) bare() *btc.Tx {
 	tx := &btc.Tx{Version: c.Version, Lock_time: c.Lock}
 	for _, i := range c.Ins {
 		in := &btc.TxIn{Sequence: i.Seq}
@@ -97,16 +120,14 @@ func (c *Case) real() *btc.Tx {
 	for _, x := range c.Outs {
 		tx.TxOut = append(tx.TxOut, &btc.TxOut{Value: x.Value, Pk_script: unhx(x.Pk)})
 	}
-	tx.AllocVerVars()
-	for _, x := range c.Spent {
-		tx.Spent_outputs = append(tx.Spent_outputs, &btc.TxOut{Value: x.Value, Pk_script: unhx(x.Pk)})
-	}
 	return tx
 }
 
-func (c *Case) oracleLine() string {
+func (c *Case) oracleLine() string { return "tx" + c.oracleFields() }
+
+func (c *Case) oracleFields() string {
 	var sb strings.Builder
-	fmt.Fprintf(&sb, "tx %d %d %d %d %d", c.Version, c.Lock, len(c.Ins), len(c.Outs), len(c.Spent))
+	fmt.Fprintf(&sb, " %d %d %d %d %d", c.Version, c.Lock, len(c.Ins), len(c.Outs), len(c.Spent))
 	for _, i := range c.Ins {
 		fmt.Fprintf(&sb, " %s %d %d", i.Hash, i.Vout, i.Seq)
 	}
@@ -166,18 +187,23 @@ func guardedCall(tx *btc.Tx, k *Call) (res string, hung bool) {
 
 // modelCall asks the oracle (cache threaded inside the oracle): kind, preimage, digest
 func modelCall(k *Call) (kind, pre, dig string) {
+	return modelAsk(k, k.Kind)
+}
+
+// modelAsk: cmd = "leg" / "wit" / "tap" (the one object of the oracle) or "wleg 3" … (object 3 of a history)
+func modelAsk(k *Call, cmd string) (kind, pre, dig string) {
 	var rep string
 	switch k.Kind {
 	case "leg":
-		rep = o.MustAsk(fmt.Sprintf("leg %s %d %d", vlib.Hex(unhx(k.Sc)), k.Idx, k.Ht))
+		rep = o.MustAsk(fmt.Sprintf("%s %s %d %d", cmd, vlib.Hex(unhx(k.Sc)), k.Idx, k.Ht))
 	case "wit":
-		rep = o.MustAsk(fmt.Sprintf("wit %s %d %d %d", vlib.Hex(unhx(k.Sc)), k.Amount, k.Idx, k.Ht))
+		rep = o.MustAsk(fmt.Sprintf("%s %s %d %d %d", cmd, vlib.Hex(unhx(k.Sc)), k.Amount, k.Idx, k.Ht))
 	case "tap":
 		ah := "nil"
 		if k.Annex != nil {
 			ah = hx(k.execdata().M_annex_hash)
 		}
-		rep = o.MustAsk(fmt.Sprintf("tap %s %s %d %d %d %s", ah, vlib.Hex(unhx(k.Leaf)), k.Cs, k.Idx, k.Ht, b01(k.Script)))
+		rep = o.MustAsk(fmt.Sprintf("%s %s %s %d %d %d %s", cmd, ah, vlib.Hex(unhx(k.Leaf)), k.Cs, k.Idx, k.Ht, b01(k.Script)))
 	}
 	f := strings.Fields(rep)
 	switch {
@@ -625,6 +651,8 @@ func replay(path string) {
 		DSig  *string  `json:"delsig_sig"`
 		Multi []*Multi `json:"multi"`
 		Group []*Case  `json:"group"`
+		Life  *Life    `json:"life"`
+		LifeM *LifeM   `json:"lifemulti"`
 	}
 	if json.Unmarshal(doc.Replay, &probe) == nil && probe.E2E != nil {
 		runE2E(probe.E2E)
@@ -637,6 +665,14 @@ func replay(path string) {
 	}
 	if len(probe.Group) > 0 {
 		runGroup(probe.Group, 60)
+		return
+	}
+	if json.Unmarshal(doc.Replay, &probe) == nil && probe.Life != nil {
+		runLife(probe.Life)
+		return
+	}
+	if probe.LifeM != nil {
+		runLifeM(probe.LifeM)
 		return
 	}
 	if probe.DScr != nil && probe.DSig != nil {
@@ -737,6 +773,9 @@ func main() {
 	//     object and with one goroutine per input
 	multiStreams(g)
 	lap("4c-multi-input-multi-check")
+	// 4d. histories over several transaction objects: AllocVerVars / digest requests or whole spends / Clean, interleaved
+	lifeStreams(g)
+	lap("4d-lifecycle-across-objects")
 	// 5. delSig (real code through the verif hook) against FindAndDelete and the model
 	delSigCorpus()
 	for i := 0; i < r.N(300, 20000); i++ {
